@@ -149,14 +149,14 @@ def handleLines (st : St) (fid cat variant impl : String) : Verdict :=
     | some locsText =>
       match parseLocs locsText with
       | some locs =>
-        if impl == "PANIC" then { kind := "LINES", group := variant, agree := "D", oracle := "na", detail := "entry point panics although its detector does not" }
+        if impl == "PANIC" then { kind := "LINES", group := variant, agree := "D", oracle := "VIOL", detail := "panic: entry point panics although its detector does not" }
         else
           let model := fmtNats (lineSet (locs.map (fun l => lineOf f.src l.1)))
           let spec := fmtNats (canonNats (locs.map (fun l => specLine f.src l.1)))
           { kind := "LINES", group := variant, agree := if model == impl then "A" else "D",
             oracle := if spec == impl then "ok" else "VIOL",
             detail := if model == impl && spec == impl then "" else s!"model={model}|spec={spec}|impl={impl}|locs={locsText}" }
-      | none => { kind := "LINES", group := variant, agree := "na", oracle := "na", detail := "detector panics (C04)" }
+      | none => { kind := "LINES", group := variant, agree := "na", oracle := if impl == "PANIC" then "VIOL" else "na", detail := "panic: detector panics" }
     | none => { kind := "LINES", group := variant, agree := "E", detail := s!"no DET observation for {det}" }
   | _, _ => { kind := "LINES", group := variant, agree := "E", detail := "unknown file or variant" }
 
@@ -177,7 +177,11 @@ def step (st : St) (line : String) : St × Option Verdict :=
     match decodeAs "SourceUnit" dbg with
     | .ok t =>
       let st := noteTree st t
-      let ok := conforms (.named "SourceUnit") t
+      let wfStrings := (T.allNodes t).all fun n =>
+        match n with
+        | .node .Expression_StringLiteral [pieces] => !(vecItems pieces).isEmpty
+        | _ => true
+      let ok := conforms (.named "SourceUnit") t && wfStrings
       let st := if ok then st else { st with conformFailures := st.conformFailures + 1 }
       ({ st with files := truncate 48 ((fid, { src := unhex hexSrc.toList, tree := t }) :: st.files) },
         if ok then none else some { kind := "FILE", agree := "E", detail := "tree does not conform to the schema" })
